@@ -5,7 +5,7 @@
    defined by structural recursion on the remaining depth and on the text, with
    no fuel: they terminate on every template and every environment, cyclic or
    not; the correspondence check ties that to the C code. *)
-From Robsd Require Import Interp.InterpSpec Interp.InterpProofs Interp.InterpMore Interp.InterpTie.
+From Robsd Require Import Interp.InterpSpec Interp.InterpProofs Interp.InterpMore Interp.InterpTie Interp.InterpCost.
 From RobsdGen Require Import Gen_Interp Gen_InterpSrc.
 Local Open Scope N_scope.
 
@@ -187,8 +187,11 @@ Print Assumptions C09_ignore_mode.
 
 (* '$', '{', '}' are the characters interpolate_inner tests, the limit is the one
    constant compared with the pre-incremented counter, the counter is touched at
-   exactly two places; and the character laws hold with the SOURCE's characters,
-   in both modes *)
+   exactly two places (the translator COUNTS the occurrences of the field; any other
+   count stops this proof); and the character laws hold with the SOURCE's characters,
+   in both modes.  The order of the tests, the IGNORE copy and the place of the
+   increment/decrement are NOT theorems: harness/t_interpsrc.py pins the three function
+   bodies as text and refuses any other. *)
 Theorem C09_source_characters : forall env d ig,
   (DOLLAR = src_dollar /\ LBRACE = src_lbrace /\ RBRACE = src_rbrace) /\
   (src_depth_limit = depth_limit /\ src_depth_sites = 2%nat) /\
@@ -203,11 +206,37 @@ Theorem C09_source_characters : forall env d ig,
 Proof. exact (fun env d ig => conj tie_chars (conj tie_depth (source_char_laws env d ig))). Qed.
 Print Assumptions C09_source_characters.
 
+(* the five diagnostics after "invalid substitution, " as the source spells them are the texts the model's error classes
+   stand for (the harness maps stderr to brace/close/empty/unknown/deep by exactly these prefixes, harness/c09.py KINDS) *)
+Theorem C09_source_messages : src_messages =
+  [[101; 120; 112; 101; 99; 116; 101; 100; 32; 39; 123; 39];                                            (* expected '{' *)
+   [101; 120; 112; 101; 99; 116; 101; 100; 32; 39; 125; 39];                                            (* expected '}' *)
+   [101; 109; 112; 116; 121; 32; 118; 97; 114; 105; 97; 98; 108; 101; 32; 110; 97; 109; 101];           (* empty variable name *)
+   [117; 110; 107; 110; 111; 119; 110; 32; 118; 97; 114; 105; 97; 98; 108; 101];                        (* unknown variable *)
+   [114; 101; 99; 117; 114; 115; 105; 111; 110; 32; 116; 111; 111; 32; 100; 101; 101; 112]].            (* recursion too deep *)
+Proof. exact tie_messages. Qed.
+Print Assumptions C09_source_messages.
+
 (* the oracle applied to the implementation is exact for the model *)
 Theorem C09_oracle_accepts_model : forall limit env content e o,
   spec_ok_cmd limit env content e o = true <-> interp_cmd limit (alookup env) content = (e, o).
 Proof. exact oracle_cmd_exact. Qed.
 Print Assumptions C09_oracle_accepts_model.
+
+(* ---- termination is not promptness: the size of the result ------------------------------------ *)
+(* with every value at most V >= 4 bytes long and d levels usable below the template: 4^d * |result| <= |template| * V^d,
+   in both modes; and the family that reaches it (F references per value on every level give the leaf F^levels times).
+   The consequence for "terminates promptly" is property C12's (known finding interpolation-fanout-not-prompt). *)
+Theorem C09_output_bound : forall ig env V, (4 <= V)%nat ->
+  (forall n v, env n = Some v -> (length (cstr v) <= V)%nat) ->
+  forall d s out, interp (S d) ig env s = IOk out -> (4 ^ d * length out <= length s * V ^ d)%nat.
+Proof. exact output_bound. Qed.
+Print Assumptions C09_output_bound.
+
+Theorem C09_fanout_exact : forall F levels leaf, (1 <= levels <= 20)%nat -> ~ In DOLLAR leaf -> ~ In 0%N leaf ->
+  interp (S levels) false (fan_env F levels leaf) (rep F (ref (lvl_name 0))) = IOk (rep (F ^ levels) leaf).
+Proof. exact (fun F levels leaf H Hd H0 => proj1 (fanout_exact F levels leaf H Hd H0)). Qed.
+Print Assumptions C09_fanout_exact.
 
 From Coq Require Import String.
 Local Open Scope string_scope.
